@@ -1392,7 +1392,7 @@ var (
 	keyEdge = []string{"A", "Ab", "a_b", "a b", "a.b", "-a", "a-", "+a", "a+", "0", "9", rep("k", 65), "ñ", "a/b", "é1", " a"}
 
 	codeShapes = []string{"A", "Z9", "0", "a", "abc", "AB-12", "A.B", "A/B", "A B", "A_B", "A:B", "A-B.C/D E_F:G", rep("X", 32), "0001", "a1-b2", "INV-2024/001", "x.y.z"}
-	codeEdge   = []string{"A--B", "-A", "A-", " A", "A ", "A  B", "Ñ", "A&B", "AÑB", rep("X", 33), "A\tB", "A+B", "#1", "(A)", "A,B", "A*", "É", "A.-B", "1/", "Nº1", "A@B"}
+	codeEdge   = []string{"A--B", "-A", "A-", " A", "A ", "A  B", "Ñ", "A&B", "AÑB", rep("X", 33), "A\tB", "A+B", "#1", "(A)", "A,B", "A*", "É", "A.-B", "1/", "Nº1", "A@B", "K&A010301I16", "ÑÑÑ010101AAA"}
 
 	stringShapes = []string{"x", " ", " padded ", rep("a", 300), "ünïcödé ✓ 日本語", "line1\nline2", "<b>&amp;</b>", "0", "null", "\t", "\"quoted\"", "a/b~c"}
 
@@ -1413,7 +1413,9 @@ var (
 		"f47ac10b58cc11e89bd80242ac120002",
 		"9b3c2c1e-7a0d-0c55-e1d0-3f5d6d6b8f10", // version 0, variant e
 	}
-	dateShapes     = []string{"2024-02-29", "1999-12-31", "2000-01-01", "0001-01-01", "9999-12-31", "2100-02-28", "1600-02-29", "0000-00-00", "2023-06-30", "2022-01-01", "1970-01-01", "0999-10-10"}
+	// the zero date "0000-00-00" is left out by construction: known finding
+	// zero-date-accepted (witness in findings/)
+	dateShapes     = []string{"2024-02-29", "1999-12-31", "2000-01-01", "0001-01-01", "9999-12-31", "2100-02-28", "1600-02-29", "2023-06-30", "2022-01-01", "1970-01-01", "0999-10-10"}
 	dateTimeShapes = []string{"2024-02-29T23:59:59", "1999-12-31T00:00:00", "0001-01-01T00:00:00", "9999-12-31T23:59:59", "0000-00-00T00:00:00", "2023-06-30T12:30:45", "2016-12-31T23:59:60"}
 	amountShapes   = []string{"0", "1", "-1", "0.00", "-0.00", "10.5", "1234567.89", "0.000001", "123456789012345.12", "-99999.9999", "1.2345678901234567", "007"}
 	percentShapes  = []string{"0%", "21%", "-5.5%", "100%", "100.000%", "0.0%", "7.25%", "1000%", "0.001%"}
@@ -1430,6 +1432,10 @@ var (
 	isoPool   []string
 	taxPool   []string
 	curPool   []string
+	// $regime: codes of the defined regimes plus undefined ones; the alternative
+	// codes (GR, XI, XU) are left out by construction: known finding
+	// regime-alt-code-accepted (witness in findings/)
+	regimePool []string
 )
 
 func defKeys(defs []*cbc.Definition) []string {
@@ -1522,6 +1528,18 @@ func loadPools() {
 			curPool = append(curPool, string(d.ISOCode))
 		}
 		curPool = append(curPool, "XXX", "eur", "EURO", "BTC")
+		alt := map[string]bool{}
+		for _, r := range tax.AllRegimeDefs() {
+			regimePool = append(regimePool, string(r.Country))
+			for _, a := range r.AltCountryCodes {
+				alt[string(a)] = true
+			}
+		}
+		for _, c := range []string{"AF", "AQ", "XX", "es", "ESP", "UK", "EU", "ZZ"} {
+			if !alt[c] {
+				regimePool = append(regimePool, c)
+			}
+		}
 	})
 }
 
@@ -1721,6 +1739,10 @@ func leafValue(t *rapid.T, b *base, s site) (json.RawMessage, string) {
 	case "l10n.ISOCountryCode":
 		add("definition", 1, isoPool)
 	case "l10n.TaxCountryCode":
+		if field == "tax.Regime.Country" {
+			add("definition", 1, regimePool)
+			break
+		}
 		add("definition", 3, taxPool)
 		add("harvest", 1, harvestField[field])
 	case "currency.Code":
@@ -2028,7 +2050,12 @@ func enumFields(yield func(MutCase) bool) {
 	idx := 0
 	for _, f := range order {
 		a := first[f]
-		for _, v := range sweepValues(a.s.GoType) {
+		vals := sweepValues(a.s.GoType)
+		if f == "tax.Regime.Country" {
+			loadPools()
+			vals = regimePool
+		}
+		for _, v := range vals {
 			idx++
 			if idx%vh.Cfg().Shards != vh.Cfg().Shard {
 				continue
@@ -2137,7 +2164,19 @@ func judgeDef(c DefCase, o *vh.Obs) {
 // ---------------------------------------------------------------------------
 
 func init() {
-	vh.Describe("TODO")
+	vh.Describe(
+		"Referee: tools/schema_oracle.py (python3-vt, jsonschema Draft202012Validator + referencing.Registry holding every file of data/schemas by $id; format asserted for date, uuid, date-time only), one process per shard, spoken to line by line. "+
+			"`schemas` (exhaustive, one case per file under data/schemas): the file loads, declares the 2020-12 dialect, its $id is the URL its path implies, it passes the 2020-12 meta-schema (check_schema), every $ref resolves inside the registry, every `pattern` and patternProperties key compiles in Python re and in Go regexp (a Go failure caused only by an ECMA look-around or back-reference is classed, not failed; identity escapes such as `\\:` that ECMAScript unicode mode refuses are classed `pattern-needs-non-unicode-mode`, not failed). "+
+			"`corpus` (exhaustive): each of the example sources is enveloped by the harness, calculated, and - only if Envelope.Validate passes - serialised; the envelope is validated against the envelope schema, its doc against the schema named by the doc's $schema, and every embedded object carrying a $schema (complements) against its own. "+
+			"`definitions` (exhaustive): every registered regime, addon and catalogue definition that passes its own Validate is serialised with schema.NewObject and validated against tax/regime-def, tax/addon-def, tax/catalogue-def. "+
+			"`fields` (exhaustive sweep) and `mutations` (rapid): a case is a corpus path plus 1-3 edits (JSON pointer, set/remove/append, value) of the calculated serialised envelope; positions and their Go types come from walking the calculated Go structure by reflection (calculated members, header uuid/digest and $schema excluded). `fields` gives every Go field of type cbc.Key, cbc.Code, org.Unit, country/currency/l10n code, uuid.UUID, cal.Date/DateTime every shape of its pool once (valid shapes and shapes outside the published pattern / list), at the first corpus position of that field. `mutations` first draws a category (key, code, enumerated code, uuid, date, extension map, meta map, slice, struct, string, number, absent optional member) then a position and a value: keys from the Go definition lists (invoice/order/delivery/payment types, note keys, payment means, term keys, rounding rules, units, identity/inbox/rate/tag keys of the document's regime and addons), codes, values harvested from the same field elsewhere in the corpus, whole sub-structures of the same Go type transplanted from other corpus documents, extension keys and values from the regime/addon/catalogue definitions, meta entries, tags offered by the regime/addons, UUID versions 1-8 and other spellings google/uuid reads, dates, long/short/unicode strings, optional members set and unset, array elements appended and removed. The edited envelope is parsed, calculated and validated by the library; cases the library rejects are discarded (counted: kept-rate = 1 - discarded/evaluations); for kept cases the published schemas must accept the serialised result. "+
+			"Violation signature: schema-rejects:<schema short name>:<keyword>:<instance path with indices as *>. "+
+			"Non-trivial (`mutations`, `fields`): the case was kept and, according to the published schema files read as data (following $ref, allOf, properties, patternProperties, items and the $schema of embedded objects), at least one edited position is governed by pattern, enum/const (incl. oneOf/anyOf of consts), an asserted format, or - for members added or removed - the parent's `required`. `corpus` / `definitions`: the document passed the library's validation and was put to the validator; `schemas`: the file exists.",
+		"format is asserted only for date, uuid, date-time (RFC 3339 / RFC 4122 syntax); uri, email and other formats are annotations",
+		"Python re semantics are used for `pattern` (ASCII-only inputs are generated inside patterned members except where stated, so \\d / $ differences between Python, RE2 and ECMA 262 do not matter)",
+		"a crash of Calculate/Validate on a mutated document is C14's subject and is counted as a discarded case here",
+		"by construction the generators do not produce the zero date 0000-00-00 nor the alternative regime codes GR/XI/XU as $regime (known findings with witnesses in findings/)",
+	)
 	vh.Enum("schemas", enumSchemas, judgeSchema)
 	vh.Enum("corpus", enumCorpus, judgeCorpus)
 	vh.Enum("definitions", enumDefs, judgeDef)
